@@ -13,7 +13,10 @@ ASSUMPTIONS = ['the vec![..] lowering (Box::new_uninit + write + box_assume_init
 
 
 def groups(tier):
-    return [{'name': 'from-' + t, 'fn': from_group, 'args': {'tn': t}} for t in TYPES]
+    gs = [{'name': 'from-' + t, 'fn': from_group, 'args': {'tn': t}} for t in TYPES]
+    if tier != 'quick':
+        gs.append({'name': 'kani-k3', 'fn': kani_group, 'args': {}, 'timeout_s': 1200})
+    return gs
 
 
 def judge_from(tn, arity):
@@ -56,3 +59,13 @@ def from_group(s, tn):
         s.prove(h, 'Version::from(%s) has exactly the denoted fields, empty build, %s' % (sig, 'no prerelease' if arity == 3 else 'one numeric prerelease identifier'),
                 pre, AND(*goal), decode=dec, replay=judge_from(tn, arity))
         s.unreachable(h, 'Version::from(%s) does not panic on non-negative input' % sig, pre, pan, decode=dec, replay=judge_from(tn, arity))
+
+
+def kani_group(s):
+    from .. import kani
+    # engine M's verdict on the two instantiations the Kani harness covers: (i8 x4) and (u64 x3)
+    s2 = type(s)('m-side', s.tier, s.seed, s.ws, s.binary, s.timeout_s)
+    from_group(s2, 'i8')
+    from_group(s2, 'u64')
+    holds = all(r['verdict'] == 'holds' for r in s2.results)
+    kani.cross_check(s, 'k3_from_tuples', holds, 'From<(i8,i8,i8,i8)> and From<(u64,u64,u64)> build the denoted fields')
